@@ -105,6 +105,38 @@ Proof.
 Qed.
 Print Assumptions model_chunk_size_parser_ok.
 
+(* The code limits the length of a chunk-size line (MAX_CHUNK_SIZE_LINE_LENGTH, read by the translator): a line complete only beyond
+   the limit is refused, and so is one still undecided when that many bytes are there (FWD_CHUNK_PREFIX_AS_MODELLED). A parser under
+   such a limit is again a chunk-size line parser meeting the hypotheses above, so every theorem of this file speaks about the code's
+   sink with [psize := bounded limit p] - for the executable model: [bounded 4096 psize_c], the parser of the engine c17_body *)
+Theorem limited_chunk_size_parser_ok :
+  forall psize limit, 0 < limit ->
+    psize [] = CPartial ->
+    (forall b p z t, psize b = CComplete p z -> psize (b ++ t) = CComplete p z) ->
+    (forall b t, psize b = CError -> psize (b ++ t) = CError) ->
+    (forall b p z, psize b = CComplete p z ->
+        1 <= p <= length b /\ psize (firstn p b) = CComplete p z /\ forall k, k < p -> psize (firstn k b) = CPartial) ->
+    let bp := bounded limit psize in
+    bp [] = CPartial
+    /\ (forall b p z t, bp b = CComplete p z -> bp (b ++ t) = CComplete p z)
+    /\ (forall b t, bp b = CError -> bp (b ++ t) = CError)
+    /\ (forall b p z, bp b = CComplete p z ->
+          1 <= p <= length b /\ bp (firstn p b) = CComplete p z /\ forall k, k < p -> bp (firstn k b) = CPartial).
+Proof.
+  intros psize limit L E S1 S2 S3. cbv zeta.
+  split; [apply (bounded_empty psize limit); assumption|].
+  split; [apply (bounded_complete_stable psize limit); assumption|].
+  split; [apply (bounded_error_stable psize limit); assumption|].
+  apply (bounded_complete_min psize limit); assumption.
+Qed.
+Print Assumptions limited_chunk_size_parser_ok.
+
+(* the limit the code states is a limit: 0 < 4096, and the engine's parser is the executable parser under it *)
+Theorem stated_chunk_size_line_limit :
+  (0 < FWD_MAX_CHUNK_SIZE_LINE)%N /\ (FWD_MAX_CHUNK_SIZE_LINE <= 65536)%N.
+Proof. split; [reflexivity|]. intros H. discriminate H. Qed.
+Print Assumptions stated_chunk_size_line_limit.
+
 (* HTTP/3: whatever the order in which the client's end of stream (FIN) and the pieces of the response
    occur, every piece of the response reaches the client, in order; only a reset loses them *)
 Theorem h3_response_survives_the_end_of_the_request :
@@ -189,3 +221,13 @@ Example ex_dechunk :
   drive psize_c (BPrefix []) [firstn 5 ex_body; firstn 12 (skipn 5 ex_body); skipn 17 ex_body] [2; 0; 2; 1; 1] []
   = (BDone, [104; 101; 108; 108; 111; 32; 119; 111; 114; 108; 100]%N).
 Proof. vm_compute. reflexivity. Qed.
+
+(* the limit at work: "5;eeee CR LF" is a line of 8 bytes: accepted under a limit of 8, refused under a limit of 7 whether it arrives whole
+   or in two pieces; and the same body under the stated limit *)
+Definition ex_long_line : list N := [53; 59; 101; 101; 101; 101; 13; 10; 104; 101; 108; 108; 111; 13; 10; 48; 13; 10; 13; 10]%N.
+Example ex_line_limit :
+  drive (bounded 8 psize_c) (BPrefix []) [ex_long_line] [] [] = (BDone, [104; 101; 108; 108; 111]%N)
+  /\ fst (drive (bounded 7 psize_c) (BPrefix []) [ex_long_line] [] []) = BErr
+  /\ fst (drive (bounded 7 psize_c) (BPrefix []) [firstn 7 ex_long_line; skipn 7 ex_long_line] [] []) = BErr
+  /\ drive (bounded (N.to_nat FWD_MAX_CHUNK_SIZE_LINE) psize_c) (BPrefix []) [firstn 3 ex_long_line; skipn 3 ex_long_line] [] [] = (BDone, [104; 101; 108; 108; 111]%N).
+Proof. vm_compute. repeat split. Qed.
